@@ -554,8 +554,27 @@ def carr_index_concrete(idx):
     return conv(idx)
 
 
+def concretise_mask(ctx, idx):
+    """a boolean mask of concrete shape with symbolic entries: the path is split on every entry (complete case analysis), the mask becomes concrete"""
+    def one(i):
+        if isinstance(i, CArr) and i.kind == 'bool' and any(is_sym(x) for x in i.data.flat) and ctx is not None and i.size <= 8:
+            d = np.empty(i.shape, dtype=object)
+            for o in np.ndindex(*i.shape):
+                x = i.data[o]
+                if is_sym(x):
+                    c = V.simp(V.zbool(x))
+                    x = c if isinstance(c, bool) else ctx.fork(c)
+                d[o] = bool(x)
+            return CArr(d, 'bool')
+        return i
+    if isinstance(idx, tuple):
+        return tuple(one(i) for i in idx)
+    return one(idx)
+
+
 def arr_getitem(ctx, a, idx):
     if isinstance(a, CArr):
+        idx = concretise_mask(ctx, idx)
         ci = carr_index_concrete(idx)
         if ci is not NotImplemented:
             try:
@@ -679,6 +698,7 @@ def arr_setitem(ctx, a, idx, v, aug=False):
     if isinstance(v, (list, tuple)):
         v = to_carr(v)
     if isinstance(a, CArr):
+        idx = concretise_mask(ctx, idx)
         ci = carr_index_concrete(idx)
         if ci is not NotImplemented and not isinstance(v, LArr):
             vk = v.kind if isinstance(v, CArr) else V.kind(v)
